@@ -167,7 +167,11 @@ class WebsocketSession(object):
             sock.settimeout(30)  # TODO: make a parameter for this?
             if ssl:
                 log.debug('wrapping socket')
-                sock = self._wrap_socket(sock, host)
+                try:
+                    sock = self._wrap_socket(sock, host)
+                except Exception:
+                    sock.close()
+                    raise
             try:
                 sock.connect(sa)
             except socket.error as error:
@@ -195,23 +199,27 @@ class WebsocketSession(object):
             )
         except _SocketFail as error:
             self._socket_fail('unable to connect to proxy; {}', error)
-        proxy_request = proxy.build_request(
-            self.websocket.host, self.websocket.port,
-            proxy_username=_proxy_url.username,
-            proxy_password=_proxy_url.password
-        )
-        sock.sendall(proxy_request)
-        proxy_parser = proxy.ProxyParser()
-        response = None
-        while response is None:
-            data = sock.recv(1024)
-            for response in proxy_parser.feed(data):
-                break
-        return (
-            self._wrap_socket(sock, self.websocket.host)
-            if self.websocket.is_secure else
-            sock
-        )
+        try:
+            proxy_request = proxy.build_request(
+                self.websocket.host, self.websocket.port,
+                proxy_username=_proxy_url.username,
+                proxy_password=_proxy_url.password
+            )
+            sock.sendall(proxy_request)
+            proxy_parser = proxy.ProxyParser()
+            response = None
+            while response is None:
+                data = sock.recv(1024)
+                for response in proxy_parser.feed(data):
+                    break
+            if self.websocket.is_secure:
+                sock = self._wrap_socket(sock, self.websocket.host)
+        except Exception:
+            # We are connected to the proxy, but there is no tunnel.
+            # Nobody else knows about this socket, so close it here.
+            sock.close()
+            raise
+        return sock
 
     def _connect(self):
         """Create socket and connect."""
